@@ -38,7 +38,7 @@ def main():
             all_checks = True
         else:
             pats.append(a)
-    ids = sorted(d for d in os.listdir(os.path.join(HERE, "seeded")) if os.path.isdir(os.path.join(HERE, "seeded", d)))
+    ids = sorted(d for d in os.listdir(os.path.join(HERE, "seeded")) if os.path.isdir(os.path.join(HERE, "seeded", d)) and not d.startswith("ok-"))
     if pats:
         ids = [i for i in ids if any(p in i for p in pats)]
     head = sh("git -C /repo rev-parse --short HEAD").stdout.strip()
